@@ -32,6 +32,10 @@ checks = {
    text="Stateless model checking of the implementation: instrumented copies of the current solver, lookup blueprint, provers and verifiers (goinstr rewrites go/chan/select/sync/errgroup into scheduler calls and adds statement-level points in the functions that touch shared state) run under the controlled scheduler vsched; for each scenario (2 Solves sharing a lookup-table system; 2 Proves sharing an option slice; 2 Verifies sharing an option value that carries a hash; the solver's own workers on a wide level) EVERY schedule within the deviation bound is executed and each call must return what it returns alone on fresh objects — no panic, no deadlock (detected exactly: no enabled thread). Plus every call history of length <=2 (thorough 3) on one shared system/key.",
    note="Threads are serialised at synchronisation operations and at statement-level points of the listed files (instr.json); preemption bound 1 quick / 2 thorough (delay bound for the provers' pipelines); bn254 instantiation of the generated per-curve code; data races below statement granularity need the separate free-running -race pass.",
    technique="stateless model checking of the real code under a controlled scheduler (preemption/delay-bounded exhaustive schedule enumeration with partial-order reduction for call-private channels)"),
+ "C11": dict(level=MC, ref="DESIGN.md §2 C11",
+   text="The only nondeterminism of single-threaded compilation is map iteration order: a go/types scan of the current tree lists every `range` over a map on the compile path and goinstr rewrites each into a choice of order; for one circuit per stateful gadget family (hints, commitments, lookup tables, range checks, emulated arithmetic, deferred callbacks, multicommit, GKR, constant tables, the wire->constraint query with 0..3 missing wires) x builders x compile options and the API programs of the generator, ALL orders within the deviation bound (all k! for k<=4 keys, <=2 sites departing) are executed and the serialized bytes must be identical to three fresh-process compilations; all histories of <=2 (thorough 3) compilations of fresh circuit values are compared with the fresh-process bytes; two compilations are interleaved under the controlled scheduler at every statement of the global hint registry.",
+   note="Assumes no time/randomness/pointer-order dependence in the frontend (none found by the scan); cross-process reference = 3 fresh processes of the same binary.",
+   technique="exhaustive enumeration of map-iteration orders (environment choices) on instrumented real code + history enumeration + scheduler exploration"),
  "C05": dict(level=MC, ref="DESIGN.md §2 C05, §1.5",
    text="Explicit-state model checking of the constraint systems the real compiler emits over the 47-element field: for every API operation x operand-kind pattern x builder and every input tuple, breadth-first search over all values of every other wire (hint outputs included) computes the exact set of satisfiable outputs and compares it with the documented relation; every leaf is re-validated with big-integer arithmetic and every assignment the real solver produces is replayed as a model path. Exhaustive in F_47 for <=2 variable operands, boundary alphabet for 3+.",
    note="Trusts GetR1Cs/GetSparseR1Cs as the rows the backends prove (C02 checks that link for PLONK); algebraic gadgets only — statistical arguments are not decided over F_47; large-field hint substitution is bounded to <=2 departures over a finite alphabet.",
